@@ -45,6 +45,16 @@ func (b *c05Backend) Send(msg *Message) error {
 func (b *c05Backend) GetAddress() string { return b.addr }
 func (b *c05Backend) Close()             { atomic.StoreInt32(&b.closed, 1) }
 
+// c05Counter is a Backend double that only counts deliveries.
+type c05Counter struct {
+	addr string
+	n    *int64
+}
+
+func (b *c05Counter) Send(*Message) error { atomic.AddInt64(b.n, 1); return nil }
+func (b *c05Counter) GetAddress() string  { return b.addr }
+func (b *c05Counter) Close()              {}
+
 type c05Op struct {
 	kind byte // 'a' add, 'r' remove, 'd' dispatch
 	addr int
@@ -285,12 +295,16 @@ func c05Concurrent(rnd *rand.Rand, parkSome bool) ([]porcupine.Operation, int) {
 				msg := NewMessage()
 				c := tick()
 				atomic.AddInt32(&parked, 1)
-				err := rb.Send(msg)
+				var err error
+				panicked := vfRecover("dispatch", func() { err = rb.Send(msg) })
 				atomic.AddInt32(&parked, -1)
 				ret := tick()
 				out := ""
 				if v, ok := sink.Load(msg); ok {
 					out = v.(string)
+				}
+				if panicked != "" {
+					out = "PANIC: " + panicked // never legal
 				}
 				if err != nil && out != "" {
 					out = "ERR+" + out // delivered and failed: never legal
@@ -465,6 +479,58 @@ func TestVerifC05(t *testing.T) {
 	run.Observe("dispatches_overlapping_membership_change", overlaps)
 	if overlaps == 0 {
 		run.Violation("observed-nothing", "no dispatch overlapped a membership change in any concurrent history")
+	}
+	// (d) hammer: one permanent member, two transient ones added and removed as fast
+	// as possible while another goroutine dispatches in a tight loop. With a
+	// permanent member the set is never empty, so no dispatch may fail, panic or
+	// get lost - whatever instant of a dispatch a removal hits.
+	{
+		rb := NewRoundRobinBackend()
+		var delivered int64
+		perm := &c05Counter{addr: "10.9.0.1:5060", n: &delivered}
+		rb.AddBackend(perm)
+		stop := make(chan struct{})
+		var changes int64
+		var wgm sync.WaitGroup
+		wgm.Add(1)
+		go func() {
+			defer wgm.Done()
+			for {
+				select {
+				case <-stop:
+					return
+				default:
+				}
+				rb.AddBackend(&c05Counter{addr: "10.9.0.2:5060", n: &delivered})
+				rb.AddBackend(&c05Counter{addr: "10.9.0.3:5060", n: &delivered})
+				rb.RemoveBackend("10.9.0.3:5060")
+				rb.RemoveBackend("10.9.0.2:5060")
+				atomic.AddInt64(&changes, 4)
+			}
+		}()
+		n := ev.Pick(1500000, 30000000)
+		var failed, panics int64
+		firstBad := ""
+		for i := 0; i < n && panics == 0 && failed < 5; i++ {
+			var err error
+			if p := vfRecover("dispatch", func() { err = rb.Send(nil) }); p != "" {
+				panics++
+				firstBad = p
+			} else if err != nil {
+				failed++
+				if firstBad == "" {
+					firstBad = fmt.Sprintf("dispatch %d failed: %v", i, err)
+				}
+			}
+		}
+		close(stop)
+		wgm.Wait()
+		run.Observe("hammer_dispatches", n)
+		run.Observe("hammer_membership_changes", atomic.LoadInt64(&changes))
+		if panics > 0 || failed > 0 {
+			run.Violation("a dispatch racing with membership changes failed although a backend was registered all the time", map[string]any{"first": firstBad, "failed": failed, "panics": panics, "membership_changes_so_far": atomic.LoadInt64(&changes)})
+		}
+		run.Eval("hammer")
 	}
 	run.Exhaustive(false)
 	run.Assume("strict evenness is demanded only inside an epoch (between two membership changes); a dispatch overlapping a change must merely reach a backend that was a member at some point of its interval")
